@@ -15,8 +15,10 @@ from nemoguardrails.embeddings.providers.registry import EmbeddingProviderRegist
 DIM = 8
 
 
-def vec(text):
-    d = hashlib.md5(text.encode("utf-8", "surrogatepass")).digest()
+def vec(text, model=None):
+    # another model name = another embedding function (the default model "sim" keeps the plain md5 of the text)
+    salt = "" if model in (None, "sim") else "\x00" + str(model)
+    d = hashlib.md5((text + salt).encode("utf-8", "surrogatepass")).digest()
     vals = struct.unpack(">8H", d)
     # components in (0, 1]; never the zero vector (Annoy angular distance needs a direction)
     return [(v + 1) / 65536.0 for v in vals]
@@ -50,8 +52,9 @@ class SimEmbeddingModel(EmbeddingModel):
 
     async def encode_async(self, documents):
         w = CURRENT
-        if w is None:
-            return [vec(t) for t in documents]
+        if w is None or self.model not in (None, "sim"):
+            # (a sibling index with a model of its own is not part of the measured schedule)
+            return [vec(t, self.model) for t in documents]
         w.calls += 1
         n = w.calls
         docs = list(documents)
@@ -70,7 +73,7 @@ class SimEmbeddingModel(EmbeddingModel):
         return [vec(t) for t in docs]
 
     def encode(self, documents):
-        return [vec(t) for t in documents]
+        return [vec(t, self.model) for t in documents]
 
 
 def ensure_registered():
